@@ -246,8 +246,9 @@ def ww3_station(rng, d, nloc=1):
     for i in range(0, nd, 7):
         lines.append("  " + "  ".join(rt[i:i + 7]))
     E, W, times = [], [], []
+    step_s = int(rng.choice([3600, 3600, 1800, 4000, 1234, 10800]))       # output steps that are not whole minutes occur
     for k in range(nt):
-        t = t0 + np.timedelta64(k * 3600, "s")
+        t = t0 + np.timedelta64(k * step_s, "s")
         s = str(t)
         rowE, rowW = [], []
         for p in range(nloc):
